@@ -723,6 +723,12 @@ func unary(p *Parser) (Expr, error) {
 		return nil, err
 	}
 
+	if opToken.Tag == PlusPlus || opToken.Tag == MinusMinus {
+		if err := p.checkAssignable(expr); err != nil {
+			return nil, err
+		}
+	}
+
 	return &ExprUnary{
 		Expr:    expr,
 		OpToken: opToken,
@@ -730,7 +736,24 @@ func unary(p *Parser) (Expr, error) {
 	}, nil
 }
 
+// only a name, a member or an index expression can be assigned to
+func (p *Parser) checkAssignable(target Expr) error {
+	switch e := target.(type) {
+	case *ExprIdentifier:
+		return nil
+	case *ExprBinary:
+		if e.OpToken.Tag == Dot || e.OpToken.Tag == LSquare {
+			return nil
+		}
+	}
+	return p.error(target.Token().Pos, "invalid assignment")
+}
+
 func postfix(p *Parser, left Expr) (Expr, error) {
+	if err := p.checkAssignable(left); err != nil {
+		return nil, err
+	}
+
 	_, err := p.advance()
 	if err != nil {
 		return nil, err
@@ -745,6 +768,13 @@ func postfix(p *Parser, left Expr) (Expr, error) {
 }
 
 func binary(p *Parser, left Expr) (Expr, error) {
+	switch p.current.Tag {
+	case PlusEqual, MinusEqual, MultiplyEqual, DivideEqual:
+		if err := p.checkAssignable(left); err != nil {
+			return nil, err
+		}
+	}
+
 	_, err := p.advance()
 	if err != nil {
 		return nil, err
@@ -835,13 +865,8 @@ func (p *Parser) rewriteCompundAssingment(left Expr, right Expr, opToken Token) 
 }
 
 func assign(p *Parser, left Expr) (Expr, error) {
-	switch e := left.(type) {
-	case *ExprLiteral, *ExprArray, *ExprObject:
-		return nil, p.error(left.Token().Pos, "invalid assignment")
-	case *ExprBinary:
-		if e.OpToken.Tag != Dot && e.OpToken.Tag != LSquare {
-			return nil, p.error(left.Token().Pos, "invalid assignment")
-		}
+	if err := p.checkAssignable(left); err != nil {
+		return nil, err
 	}
 
 	_, err := p.advance()
